@@ -237,6 +237,99 @@ pub fn run_history_mode(cfg: &TeCfg, hist: &[TOp], st: &mut Stats, quiet: bool) 
     drop(rt);
 }
 
+// ------------------------------------------------------------------------------------------
+// C20, query-result cache section: many DISTINCT queries against tiny capacities
+// ------------------------------------------------------------------------------------------
+#[derive(Clone, Debug, serde::Serialize, serde::Deserialize)]
+pub enum QOp {
+    /// search with query number q (distinct directions) and k
+    S(usize, usize),
+    /// insert/overwrite document id with vector number v
+    I(u64, usize),
+    D(u64),
+    Flush,
+}
+
+fn q_vecs() -> Vec<Vec<f32>> {
+    // six pairwise non-parallel directions in the plane
+    vec![vec![1.0, 0.0], vec![0.0, 1.0], vec![0.6, 0.8], vec![0.8, -0.6], vec![-1.0, 0.1], vec![0.28, 0.96]]
+}
+
+fn q_alphabet() -> Vec<QOp> {
+    vec![QOp::S(0, 1), QOp::S(1, 1), QOp::S(2, 2), QOp::S(3, 1), QOp::S(4, 2), QOp::I(1, 0), QOp::I(2, 2), QOp::I(3, 5), QOp::I(1, 3), QOp::D(1), QOp::Flush]
+}
+
+pub fn run_qhistory(cap: usize, metric: &str, hist: &[QOp], st: &mut Stats) {
+    st.histories += 1;
+    let cfg = TeCfg { strategy: "lru".into(), l1a_capacity: 2, hot_soft: 2, hot_hard: 4, metric: metric.into(), dim: 2, qcache_capacity: cap, qcache_threshold: 1.0, hnsw_capacity: 64 };
+    let te = Te::new(&cfg);
+    let vs = q_vecs();
+    // two documents are there from the start so that the first searches cache non-empty lists
+    let _ = te.engine.insert(8, vec![0.5, 0.5], Default::default());
+    let _ = te.engine.insert(9, vec![-0.5, 0.7], Default::default());
+    for (i, op) in hist.iter().enumerate() {
+        st.steps += 1;
+        match op {
+            QOp::S(q, k) => {
+                let _ = te.engine.knn_search_with_ef_detailed(&vs[*q], *k, None);
+            }
+            QOp::I(id, v) => {
+                let _ = te.engine.insert(*id, vs[*v].clone(), Default::default());
+            }
+            QOp::D(id) => {
+                let _ = te.engine.delete(*id);
+            }
+            QOp::Flush => {
+                let _ = te.engine.flush_hot_tier(true);
+            }
+        }
+        let qc = te.qcache.len();
+        st.max_qc = st.max_qc.max(qc);
+        if qc == cap {
+            st.at_capacity_steps += 1;
+        }
+        if qc > cap {
+            st.c20.push((
+                "C20|query-cache-over-capacity".into(),
+                json!({"engine":"seqmc","check":"C20","section":"query-cache","capacity":cap,"metric":metric,"qhistory":hist,"step":i,"what":"query-cache","size":qc,"bound":cap}),
+            ));
+            return;
+        }
+    }
+}
+
+pub fn explore_qcache(tier: &str) -> (Stats, usize, usize) {
+    let depth: usize = std::env::var("C20_QDEPTH").ok().and_then(|s| s.parse().ok()).unwrap_or(if tier == "thorough" { 6 } else { 5 });
+    let alpha = q_alphabet();
+    let mut shards: Vec<(usize, &str, usize, usize)> = Vec::new();
+    for cap in [1usize, 2] {
+        for metric in ["euclidean", "cosine"] {
+            for a in 0..alpha.len() {
+                for b in 0..alpha.len() {
+                    shards.push((cap, metric, a, b));
+                }
+            }
+        }
+    }
+    let results = vcore::par::par_map(&shards, |_i, (cap, metric, a, b)| {
+        let mut st = Stats::default();
+        for seq in sequences(alpha.len(), depth, &[*a, *b]) {
+            let hist: Vec<QOp> = seq.iter().map(|&i| alpha[i].clone()).collect();
+            run_qhistory(*cap, metric, &hist, &mut st);
+        }
+        st
+    });
+    let mut tot = Stats::default();
+    for s in results {
+        tot.histories += s.histories;
+        tot.steps += s.steps;
+        tot.c20.merge(s.c20);
+        tot.max_qc = tot.max_qc.max(s.max_qc);
+        tot.at_capacity_steps += s.at_capacity_steps;
+    }
+    (tot, depth, alpha.len())
+}
+
 fn depth_for(tier: &str) -> usize {
     std::env::var("C04_DEPTH").ok().and_then(|s| s.parse().ok()).unwrap_or(if tier == "thorough" { 4 } else { 3 })
 }
@@ -300,6 +393,12 @@ pub fn run(prop: &str, tier: &str, replay: Option<&str>) -> i32 {
     let mut ev = Evidence::new(prop, tier, "model_checking");
     let mut rep = Reporter::new(prop);
     rep.report_sigbag(if is20 { &tot.c20 } else { &tot.c04 });
+    let mut qinfo: Option<(Stats, usize, usize)> = None;
+    if is20 {
+        let q = explore_qcache(tier);
+        rep.report_sigbag(&q.0.c20);
+        qinfo = Some(q);
+    }
     ev.set("states", tot.states.len() as u64);
     ev.set("transitions", tot.steps);
     ev.set("traces_validated_against_impl", tot.histories);
@@ -312,6 +411,16 @@ pub fn run(prop: &str, tier: &str, replay: Option<&str>) -> i32 {
     ev.set("configurations", cfgs.iter().map(|c| c.label()).collect::<Vec<_>>());
     if is20 {
         ev.set("rule", format!("all {nletters}^{depth} TieredEngine histories (writes, deletes, metadata updates, bulk load, forced/threshold drain, background tick, two searches, adversarial pokes) per configuration (strategy x L1a capacity x hot soft/hard limit x query-cache capacity); after every operation document-cache size <= capacity (both halves for A/B), query-cache size <= capacity, and hot-tier size <= hard limit whenever an insert has just returned; non-trivial = histories containing a poke; states = distinct (model, cache sizes, hot-tier id set)"));
+        if let Some((q, qd, qn)) = &qinfo {
+            ev.set("query_cache_section_rule", format!("all {qn}^{qd} histories over five DISTINCT queries (k 1/2), inserts that fall inside cached top-k boundaries, an overwrite, a delete and a drain, for query-cache capacity {{1,2}} x metric {{euclidean,cosine}} on a TieredEngine holding two documents; after every operation query-cache size <= capacity"));
+            ev.set("query_cache_section_histories", q.histories);
+            ev.set("query_cache_section_steps", q.steps);
+            ev.set("query_cache_section_steps_at_capacity", q.at_capacity_steps);
+            ev.set("query_cache_section_max_size_seen", q.max_qc as u64);
+            ev.set("evaluations", tot.histories + q.histories);
+            ev.set("traces_validated_against_impl", tot.histories + q.histories);
+            ev.set("transitions", tot.steps + q.steps);
+        }
         ev.set("max_document_cache_size_seen", tot.max_l1a as u64);
         ev.set("max_query_cache_size_seen", tot.max_qc as u64);
         ev.set("max_hot_tier_size_after_insert_seen", tot.max_hot_after_insert as u64);
@@ -338,6 +447,19 @@ pub fn run(prop: &str, tier: &str, replay: Option<&str>) -> i32 {
 fn run_replay(prop: &str, path: &str) -> i32 {
     let v: Value = serde_json::from_str(&std::fs::read_to_string(path).expect("read")).expect("json");
     let c = &v["case"];
+    if c.get("qhistory").is_some() {
+        let hist: Vec<QOp> = serde_json::from_value(c["qhistory"].clone()).unwrap();
+        let mut st = Stats::default();
+        run_qhistory(c["capacity"].as_u64().unwrap() as usize, c["metric"].as_str().unwrap(), &hist, &mut st);
+        return if let Some((s, r)) = st.c20.any_first() {
+            println!("replay: reproduced {s}: size {} bound {}", r["size"], r["bound"]);
+            println!("VIOLATION property={prop} replay={path}");
+            1
+        } else {
+            println!("replay: no violation");
+            0
+        };
+    }
     let cfg: TeCfg = serde_json::from_value(c["cfg"].clone()).unwrap();
     let hist: Vec<TOp> = serde_json::from_value(c["history"].clone()).unwrap();
     let mut st = Stats::default();
